@@ -71,6 +71,11 @@ D_Missing89Kept == ~(AtEnd /\ NoErr /\ gFull /\ zone.revoked = {} /\ \E t \in DO
 D_Missing91Gone == ~(AtEnd /\ NoErr /\ gFull /\ zone.revoked = {} /\ \E k \in gT :
                         /\ missSince[k] # None /\ missSince[k] >= 90 /\ k \notin zone.keys
                         /\ k \notin KeysIn(cur, Trusted \cup Marker))
+\* a key that has been VALID for more than the removal hold-down goes missing: its 90 days start NOW, not at the
+\* day it was first seen (AutoTA re-uses the FirstSeen stamp as the missing-since clock)
+D_MissingAfterLong == ~(AtEnd /\ NoErr /\ gFull /\ zone.revoked = {} /\ \E k \in gT :
+                        /\ missSince[k] # None /\ missSince[k] >= 1 /\ missSince[k] < 90 /\ k \notin zone.keys
+                        /\ now - missSince[k] >= 90)      \* ... and it is still missing one refresh later
 D_Reappear      == ~(pc = "WriteTombstones" /\ gFull /\ zone.revoked = {} /\ \E k \in gT \cap zone.keys :
                         missSince[k] # None /\ missSince[k] > 0)
 D_RevokeFull    == ~(AtEnd /\ NoErr /\ gFull /\ newRev)
